@@ -6,7 +6,8 @@ TRANSLATORS = [t4_memo.translate]
 LEAN_MODULES = ["IsoVerif.Props.C04"]
 THEOREMS = ["IsoVerif.Props.C04." + t for t in (
     "C04_isolation", "C04_noninterference", "C04_key_injective", "C04_recipe_includes_site",
-    "C04_statement_current", "C04_witness_same_sig", "C04_witness_isolation_fails",
+    "C04_statement_current", "C04_isolation_partial", "C04_witness_same_sig", "C04_witness_isolation_fails",
+    "C04_witness_macro_generated",
     "C04_repo_keys_consistent", "C04_repo_nodup", "C04_repo_nodup_all", "C04_repo_nonempty")]
 HARNESS = ("hx_memo", {"HX_ENGINE": "samesig"})
 DRIVER = "drv_memo"
@@ -28,11 +29,13 @@ LEVEL_TEXT = ("Kernel-checked theorems: for every program and every history of c
 LEVEL_NOTE = ("Trusted: Lean kernel; translator t4_memo + proc macro hx_memo_probe (module-tree walk, recognition of the key recipe in memo_macro.rs by exact "
               "shape); DefaultHasher is an opaque function in the general theorems and a table of real values for the repository theorems. The keys T4 "
               "predicts (module path, line, column, signature string, hash, fold) are compared on every run with the keys the real macro built for the "
-              "24 functions of the harness (op samesig.key), not for the functions of /repo themselves.")
-PARTIAL = ["the store model has no sources, epochs or garbage collection: a function's value depends on its arguments only (invalidation is C01/C02's subject); "
+              "31 table functions of the harness (op samesig.key), not for the functions of /repo themselves.")
+PARTIAL = ["OPEN FINDING same-signature-collision:macro-generated: the hypothesis SiteUnique of C04_key_injective / C04_isolation_partial is a real restriction -- "
+           "one macro_rules! invocation that defines the function twice in one module yields one key (Lean witness C04_witness_macro_generated, replayed on the real crate on every run)",
+           "the store model has no sources, epochs or garbage collection: a function's value depends on its arguments only (invalidation is C01/C02's subject); "
            "parameter ids are identified with the parameters (collisions of parameter hashes are outside C04)",
-           "SiteUnique excludes several #[memo] functions generated by one macro_rules! invocation into the same module, and include!-d files; "
-           "T4 refuses (TranslateError) sources where a #[memo] is hidden in a macro body, so the repository theorems are not affected",
+           "T4 refuses (TranslateError) sources of /repo where a #[memo] is hidden in a macro body or an include!-d file, so the repository theorems are not affected by that finding; "
+           "the harness's own macro-generated / include!-d functions are excluded from the table by a stated marker (T4-EXCLUDE) and carry their site in the request",
            "HashInjectiveOn (no 64-bit collision on the program) is a hypothesis of C04_key_injective; it is a theorem only for this repository's functions"]
 ASSUMPTIONS = ["rustc: line!()/column!() in the output of an attribute macro are those of the `#` of the attribute (checked on every run by samesig.key)",
                "one database per group: library-target functions are grouped by the name of their database type, test-target functions by the module that defines their database struct"]
